@@ -1,0 +1,25 @@
+#pragma once
+#ifdef YACLIB_VERIF
+#  include <cstddef>
+#  include <cstdint>
+namespace yaclib::verif {
+enum AtomicOp : int { kLoad = 0, kStore = 1, kRmw = 2, kCas = 3 };
+enum FiberEv : int { kCreate = 0, kExit = 1, kJoin = 2, kStack = 3 };
+enum MutexEv : int { kAcquire = 0, kRelease = 1 };
+struct Hooks {
+  bool (*inject)() = nullptr;
+  std::uint64_t (*pick)(std::uint64_t n) = nullptr;
+  bool (*weak_fail)() = nullptr;
+  std::uint64_t (*rand)(std::uint64_t max) = nullptr;
+  bool (*spurious_wakeup)() = nullptr;
+  void (*on_resume)(std::uint64_t fiber) = nullptr;
+  void (*on_suspend)() = nullptr;
+  void (*on_fiber)(int ev, std::uint64_t self, std::uint64_t other, void* stack, std::size_t size) = nullptr;
+  void (*atomic_desc)(const void* addr, std::size_t size, int op, int order, int order_fail, const void* expected) = nullptr;
+  void (*op_now)() = nullptr;
+  void (*on_fence)(int order) = nullptr;
+  void (*on_mutex)(const void* m, int ev) = nullptr;
+};
+extern Hooks* gHooks;
+}  // namespace yaclib::verif
+#endif
